@@ -37,8 +37,10 @@ def lower(files, entries, stop=None, stopfn=None, scale=None, tags=None, allpkg=
            "-stop", ",".join(stop if stop is not None else DEFAULT_STOP), "-out", out]
     if stopfn:
         cmd += ["-stopfn", ",".join(stopfn)]
+    sdir = os.path.join(d, "scaled")
     if scale:
-        cmd += ["-scale", ",".join("%s=%s" % kv for kv in scale.items())]
+        os.makedirs(sdir, exist_ok=True)
+        cmd += ["-scale", ",".join("%s=%s" % kv for kv in scale.items()), "-scaledout", sdir]
     if tags:
         cmd += ["-tags", tags]
     if allpkg:
@@ -47,6 +49,7 @@ def lower(files, entries, stop=None, stopfn=None, scale=None, tags=None, allpkg=
     r = common.sh(cmd, cwd=common.VERIF)
     prog = Prog(out)
     prog.path = out
+    prog.scaled_files = {f: os.path.join(sdir, f) for f in os.listdir(sdir)} if scale else {}
     info = {"lower_s": round(time.time() - t0, 2), "msg": r.stdout.strip().splitlines()[-1] if r.stdout.strip() else ""}
     return prog, info
 
@@ -158,13 +161,30 @@ func TestVerifReplay(t *testing.T) {
 '''
 
 
-def replay(files, violation, known=(), timeout=300):
+REPLAY_PATCHES = {
+    # stubs whose nondeterminism must follow the model during native replay: (repo file, regex, replacement)
+    "memhash": ("parsed_serialize.go", r"func memHash\(data \[\]byte\) uint64 \{.*?\n\}\n",
+                'func memHash(data []byte) uint64 { return nondetU64("memhash") }\n'),
+}
+
+
+def replay(files, violation, known=(), timeout=300, patches=(), scaled_files=None):
     """native replay of a counterexample. Returns (reproduced: bool, line: str)."""
     vec = ", ".join(str(v) for _, v in (violation["replay"] or []))
     src = REPLAY_TEST % {"vec": vec, "entry": violation["entry"], "known": ", ".join('"%s"' % k for k in known)}
     ov = {"zz_verif_replay_test.go": src}
     for f in files:
         ov[os.path.basename(f)] = open(f).read()
+    import re
+    for fn, path in (scaled_files or {}).items():
+        ov[fn] = open(path).read()          # same constant scaling as in the encoding
+    for pname in patches:
+        fn, rx, repl = REPLAY_PATCHES[pname]
+        src = ov.get(fn) or open(os.path.join(common.REPO, fn)).read()
+        new, n = re.subn(rx, repl, src, flags=re.S)
+        if n != 1:
+            return False, "replay patch %s matched %d times in %s" % (pname, n, fn)
+        ov[fn] = new
     rc, out = common.go_test_overlay(ov, "^TestVerifReplay$", timeout=timeout)
     line = ""
     for l in out.splitlines():
@@ -192,12 +212,16 @@ def probe_prefixes(prog, entry, opts, depth, intr_factory=None):
     returned with their full, shorter choice list). Used to split one harness over worker processes."""
     o = dict(opts)
     o["probe_depth"] = depth
+    o["stop_after_violations"] = 10 ** 9      # the probe must enumerate every prefix: never stop early
     intr = (intr_factory or Intrinsics)()
     eng = Engine(prog, intr, o)
     eng.keep_final = True
     eng.run_init()
     st = eng.start(prog.main + "." + entry)
     fin = eng.explore([st])
+    for u in eng.unknowns:
+        if u.kind in ("deadline", "steps"):
+            raise EngineError("probe for work splitting did not complete: " + u.msg)
     out = [(tuple(p), False) for p in eng.probe_out]
     for f in fin:
         out.append((tuple(f.choices), True))      # complete path with fewer choices: run it exactly
